@@ -202,7 +202,7 @@ PROPS['C18'] = {
 PROPS['C21'] = {
     'units': ['reader', 'loader', 'loadkb'],
     'functions': ['rule_reader.rs::strip_comments', 'rule_reader.rs::separate_rules', 'rule_reader.rs::check_last_char',
-                  'rule_reader.rs::is_decimal_point', 'rule_reader.rs::trim_error_line', 'rule_reader.rs::read_facts_and_rules', 'rule_reader.rs::unmatched_bracket'],
+                  'rule_reader.rs::is_decimal_point', 'rule_reader.rs::trim_error_line', 'rule_reader.rs::read_facts_and_rules', 'rule_reader.rs::unmatched_bracket', 'rule_reader.rs::load_kb_from_file'],
     'oracles': {'*': 'c21_load'},
     'not_covered': [
         'read_facts_and_rules is under proof (unit loader; rule R14 writes `for line in lines` as loop / next()): the text handed to separate_rules is the kept lines of the file in order, separated by white space, or the file is rejected; '
